@@ -99,6 +99,75 @@ theorem dictOf_nodup (anchors : List (Nat × Nat)) (hn : (anchors.map (·.1)).No
   rw [foldl_dictSet_nodup anchors [] hn (by simp)]
   simp
 
+theorem lookup_map_replace (d : List (Nat × Nat)) (k v k' : Nat) :
+    (d.map (fun e => if e.1 == k then (k, v) else e)).lookup k' =
+      if k' = k then (if d.any (·.1 == k) then some v else none) else d.lookup k' := by
+  induction d with
+  | nil => simp
+  | cons e es ih =>
+    obtain ⟨a, b⟩ := e
+    simp only [beq_iff_eq] at ih
+    by_cases hak : a = k
+    · subst hak
+      by_cases hk : k' = a
+      · subst hk; simp
+      · have : (k' == a) = false := by simpa using hk
+        simp [List.lookup_cons, this, hk, ih]
+    · have hak' : (a == k) = false := by simpa using hak
+      by_cases hk : k' = k
+      · subst hk
+        have : (k' == a) = false := by simpa using (Ne.symm hak)
+        simp [List.lookup_cons, this, hak, ih]
+        simp only [hak', Bool.false_or]
+      · by_cases hka : k' = a
+        · subst hka; simp [List.lookup_cons, hak, hak', hk]
+        · have : (k' == a) = false := by simpa using hka
+          simp [List.lookup_cons, this, hak, hak', hk, ih]
+
+theorem lookup_dictSet (d : List (Nat × Nat)) (k v k' : Nat) :
+    (dictSet d k v).lookup k' = if k' = k then some v else d.lookup k' := by
+  unfold dictSet
+  split
+  · rename_i h
+    rw [lookup_map_replace]
+    simp [h]
+  · rename_i h
+    rw [List.lookup_append]
+    by_cases hk : k' = k
+    · subst hk
+      have hnone : d.lookup k' = none := by
+        rw [List.lookup_eq_none_iff]
+        intro e he
+        simp only [bne_iff_ne, ne_eq]
+        intro heq
+        apply h
+        simp only [List.any_eq_true, beq_iff_eq]
+        exact ⟨e, he, heq.symm⟩
+      simp [hnone, List.lookup_cons]
+    · have : (k' == k) = false := by simpa using hk
+      simp [List.lookup_cons, this, hk]
+
+/-- the decoded dict maps each anchor id to the LAST distance reported for it in the packet -/
+theorem lookup_foldl_dictSet (anchors d : List (Nat × Nat)) (id : Nat) :
+    (anchors.foldl (fun d a => dictSet d a.1 a.2) d).lookup id = (anchors.reverse.lookup id).or (d.lookup id) := by
+  induction anchors generalizing d with
+  | nil => simp
+  | cons a as ih =>
+    obtain ⟨a1, a2⟩ := a
+    simp only [List.foldl_cons, List.reverse_cons]
+    rw [ih, lookup_dictSet, List.lookup_append]
+    by_cases h : id = a1
+    · have : (id == a1) = true := by simpa using h
+      cases hl : List.lookup id as.reverse <;> simp [List.lookup_cons, this, h]
+    · have : (id == a1) = false := by simpa using h
+      cases hl : List.lookup id as.reverse <;> simp [List.lookup_cons, this, h]
+
+theorem dictOf_lookup (anchors : List (Nat × Nat)) (id : Nat) :
+    (dictOf anchors).lookup id = anchors.reverse.lookup id := by
+  unfold dictOf
+  rw [lookup_foldl_dictSet]
+  simp
+
 /-! ### lighthouse angle stream -/
 
 /-- the binary32 pattern that `fp16_to_float` produces for half pattern `h` -/
